@@ -233,9 +233,16 @@ func runC18(c C18Case, ev *vt.Ev) *vt.Failure {
 	refused := 0
 	doWrite := func(op *bt.Op, mustFail bool) {
 		done := make(chan *bt.Result, 1)
-		go func() { done <- s.Exec(op) }()
-		select {
-		case r := <-done:
+		fin := make(chan struct{})
+		go func() { done <- s.Exec(op); close(fin) }()
+		// s.Exec detects a request that is blocked for good itself (HANG); this only bounds a machine too slow to judge
+		vt.Await(fin, 120*time.Second, nil, "write issued while the scan is parked")
+		{
+			r := <-done
+			if strings.HasPrefix(r.Panic, "HANG") {
+				writeErr.Store(fmt.Sprintf("a %s issued while the scan was streaming a batch was never acknowledged: the scan does not give up the table lock (or the table is wedged): %s", op.K, r.Panic))
+				return
+			}
 			if mustFail {
 				if r.Panic != "" || r.Code == 0 {
 					writeErr.Store(fmt.Sprintf("an invalid %s issued during the scan was not refused: code %d %s", op.K, r.Code, r.Panic))
@@ -249,15 +256,16 @@ func runC18(c C18Case, ev *vt.Ev) *vt.Failure {
 			}
 			m.apply(op)
 			acked++
-		case <-time.After(30 * time.Second):
-			writeErr.Store(fmt.Sprintf("a %s issued while the scan was streaming a batch was not acknowledged within 30s: the scan does not give up the table lock (or the table is wedged)", op.K))
 		}
 	}
 	var stop int32
 	var seq sync.Mutex
 	var wg sync.WaitGroup
 	var lastSent string
+	var inGap int32 // the scan goroutine is inside the harness's Send hook, not inside the emulator
 	onSend := func(n int) error {
+		atomic.StoreInt32(&inGap, 1)
+		defer atomic.StoreInt32(&inGap, 0)
 		if c.Free {
 			time.Sleep(200 * time.Microsecond)
 			return nil
@@ -314,17 +322,26 @@ func runC18(c C18Case, ev *vt.Ev) *vt.Failure {
 	}
 	scanOp := &bt.Op{K: "ReadRows", Table: tbl, Rows: rs}
 	scanDone := make(chan *bt.Result, 1)
+	scanFin := make(chan struct{})
+	var scanG vt.GoidSet
 	go func() {
+		scanG.Add()
 		st := &scanTracker{onSend: onSend, last: &lastSent}
 		scanDone <- s.ExecCtx(nil2ctx(), scanOp, st.send)
+		close(scanFin)
 	}()
-	var got *bt.Result
-	select {
-	case got = <-scanDone:
-	case <-time.After(180 * time.Second):
-		atomic.StoreInt32(&stop, 1)
-		return vt.Failf("C18", "the scan did not finish within 180s (wedged against concurrent writers)")
+	// the scan runs on that goroutine's own stack: blocked there (outside the Send hook) in every sample = wedged
+	scanIDs := func() []int64 {
+		if atomic.LoadInt32(&inGap) == 1 {
+			return nil
+		}
+		return scanG.IDs()
 	}
+	if mis := vt.Await(scanFin, 180*time.Second, scanIDs, "scan"); mis != "" {
+		atomic.StoreInt32(&stop, 1)
+		return vt.Failf("C18", "the scan did not finish (wedged against concurrent writers): %s", mis)
+	}
+	got := <-scanDone
 	atomic.StoreInt32(&stop, 1)
 	wg.Wait()
 	if e := writeErr.Load(); e != nil {
